@@ -447,6 +447,28 @@ def run(sh):
                              {"src": "a { b: %s; }" % e}, {"expr": e, "output": r.get("ok")})
             else:
                 sh.count("incompatible_rejected")
+        # arguments that cannot be compared at compile time (unitless next to lengths, absolute next to relative
+        # lengths, mixed dimensions in one min/max/clamp): whatever the compiler decides (error, the function kept as it
+        # is, or the legacy folding of unitless operands), it must decide it: a panic refutes. (Which of these it chooses
+        # is not judged: CSS gives such calls no value to preserve.)
+        mixed = []
+        for _ in range(12):
+            pool = ["1", "2px", "3em", "4%", "0.5", "10vw", "2in", "1rem", "3", "1deg", "2s", "calc(1px + 1%)", "var(--x)"]
+            fn = rng.choice(["min", "max", "clamp", "clamp"])
+            args = [rng.choice(pool) for _ in range(3 if fn == "clamp" else rng.range(2, 4))]
+            kinds = {("none" if a[-1].isdigit() else a.lstrip("0123456789.")) for a in args if not a.startswith(("calc", "var"))}
+            if len(kinds) < 2:
+                continue
+            mixed.append("%s(%s)" % (fn, ", ".join(args)))
+        rs = sh.w.batch([{"text": "a { b: %s; }" % e} for e in mixed])
+        for e, r in zip(mixed, rs):
+            sh.ev()
+            if "panic" in r:
+                sh.violation("panic:" + e, "panic: %s" % r["panic"], {"src": "a { b: %s; }" % e}, {"expr": e})
+            elif "ok" in r:
+                sh.count("mixed_arguments_compiled")
+            else:
+                sh.count("mixed_arguments_rejected")
 
 
 def replay(sh, payload):
